@@ -76,6 +76,8 @@ def check_gene(spec, ctx):
     lo, hi = min(t["exons"][0][0] for t in txs), max(t["exons"][-1][1] for t in txs)
     ctx.eq("span", (gene.start, gene.end), (lo, hi))
     ctx.eq("span_location", (gene.chromosome_location.start, gene.chromosome_location.end), (lo, hi))
+    # (a gene's own location is its span on the plus strand, whatever the strands of its transcripts - documented)
+    ctx.eq("span_location_strand", rm.loc_strand(gene.chromosome_location), "+")
     ctx.eq("is_coding", gene.is_coding, any(coding))
     # primary
     p = gene.get_primary_transcript()
@@ -193,6 +195,7 @@ def check_fc(spec, ctx):
         fc = mkfc(c, parent)
     lo, hi = min(f["blocks"][0][0] for f in feats), max(b_[1] for f in feats for b_ in f["blocks"])
     ctx.eq("fc_span", (fc.start, fc.end), (lo, hi))
+    ctx.eq("fc_span_location", (fc.chromosome_location.start, fc.chromosome_location.end, rm.loc_strand(fc.chromosome_location)), (lo, hi, "+"))
     ctx.eq("fc_is_coding", fc.is_coding, False)
     types = set()
     for f in feats:
